@@ -16,7 +16,7 @@ and the clauses of the property statement are evaluated on that record after *ev
   O2b every action of an ended flow instance whose Start was sent, that has not finished and is not held by a
       still-running flow, has been sent exactly one Stop;
   O2c no Stop is sent for an action that a still-running flow holds (shared action), unless that flow started it inside
-      a scope (when / or-group) that ended;
+      a scope (when / or-group) that ended  [the reading of "not shared with a still-running flow" as an exemption];
   O3  for every activated flow (flow id + parameters): while at least one of the instances that activated it is running,
       exactly one instance of it is running (it is started again whenever its instance ends; one that ran to its end
       without waiting stays); when no activator is running any more, none of its instances is running;
@@ -31,11 +31,21 @@ PROP = "C06"
 
 _RUNNING = ("WAITING", "STARTING", "STARTED", "STOPPING")
 _DONE = ("STOPPED", "FINISHED")
-_RESERVED = ("flow_id", "flow_instance_uid", "source_flow_instance_uid", "source_head_uid", "flow_hierarchy_position",
-             "activated", "context")
 
 
-class _Timeout(Exception):
+_LATE = ("[queued-request: the StartFlow request that created this instance was still in the internal event queue when its "
+         "requester / last activator ended, and was processed afterwards]")
+
+
+_DEAD_SHARE = ("[shared-at-death: the action is also held by a flow instance that ended in the very step in which the action was "
+               "started (identical action of several flows resolved to one shared action)]")
+
+
+_SCOPED_SHARE = ("[scoped-holder: another holder of the shared action started it inside a when / or-group scope, released it when the "
+                 "scope ended and released it a second time when it ended itself]")
+
+
+class _Timeout(BaseException):
     pass
 
 
@@ -54,6 +64,8 @@ class _Monitor:
         self.act_start = {}       # action uid -> (step, type, script)
         self.act_stops = {}       # action uid -> [steps]
         self.act_fin = {}         # action uid -> step of the first incoming Finished
+        self.ended_at = {}        # instance uid -> step after which it was first seen finished/failed
+        self.late = {}            # instance uid -> why its StartFlow request was processed too late (see _LATE)
         self.prev_running_ids = set()
         self.scoped_pairs = set(scoped_pairs)   # (flow_id, script) started inside a scope
         self.viol = []
@@ -72,16 +84,24 @@ class _Monitor:
         src_fs = state.flow_states.get(src)
         if src_fs is None:
             return
+        src_ended = src_fs.status.name in _DONE and src_fs is not state.main_flow_state
         if a.get("activated"):
-            params = tuple(sorted((k, repr(v)) for k, v in a.items() if k not in _RESERVED))
+            params = tuple((prm.name, repr(a.get(prm.name, a.get("$%d" % i))))
+                           for i, prm in enumerate(state.flow_configs[fid].parameters))
             group = (fid, params)
             self.members.setdefault(group, set()).add(new)
             if src_fs.flow_id != fid:
                 self.activations.setdefault(group, []).append(src)
+                if src_ended:
+                    self.late[new] = _LATE
             else:
-                self.activations.setdefault(group, [])
+                acts = self.activations.setdefault(group, [])
+                if not any(x in state.flow_states and state.flow_states[x].status.name in _RUNNING for x in acts):
+                    self.late[new] = _LATE
         else:
             self.started_by[new] = src
+            if src_ended:
+                self.late[new] = _LATE
 
     def begin(self, event):
         self.step += 1
@@ -110,9 +130,12 @@ class _Monitor:
             return u in snap and snap[u][1] in _DONE and u != main_uid
 
         def nm(u):
-            return "%s[%s]" % (snap[u][0], snap[u][1].lower()) if u in snap else str(u)[:12]
+            return ("%s[%s]" % (snap[u][0], snap[u][1].lower()) if u in snap else str(u)[:12]) + (" " + self.late[u] if u in self.late else "")
 
         running_ids = {snap[u][0] for u in snap if running(u)}
+        for u in snap:
+            if done(u) and u not in self.ended_at:
+                self.ended_at[u] = k
         # -- outgoing action events
         stops_now = []
         for o in out:
@@ -150,8 +173,13 @@ class _Monitor:
             scr = self.act_start[u][2]
             keep = [f for f in snap if running(f) and u in holds[f] and (snap[f][0], scr) not in self.scoped_pairs]
             if keep:
+                mark = ""
+                if any((snap[f][0], scr) in self.scoped_pairs for f in snap if u in holds[f]):
+                    mark = " " + _SCOPED_SHARE
+                elif any(done(f) and u in holds[f] for f in snap) and self.act_start[u][0] == k:
+                    mark = " " + _DEAD_SHARE
                 self.bad("O2c no Stop for an action shared with a still-running flow",
-                         "Stop sent for action script=%r although %s still runs and holds it" % (scr, ", ".join(nm(f) for f in keep)))
+                         "Stop sent for action script=%r although %s still runs and holds it%s" % (scr, ", ".join(nm(f) for f in keep), mark))
         # -- O1
         for new, src in self.started_by.items():
             if done(src) and running(new):
@@ -170,9 +198,14 @@ class _Monitor:
                     continue
                 n = len(self.act_stops.get(u, []))
                 if n != 1:
+                    others = [g for g in snap if g != f and u in holds[g]]
+                    mark = ""
+                    if n == 0 and others and any(self.ended_at.get(g) == self.act_start[u][0] for g in others + [f]):
+                        mark = " " + _DEAD_SHARE
                     self.bad("O2b every unfinished, unshared action of an ended flow is sent exactly one Stop",
-                             "action script=%r (started at event #%d) of %s was sent %d Stop events"
-                             % (self.act_start[u][2], self.act_start[u][0], nm(f), n))
+                             "action script=%r (started at event #%d) of %s%s was sent %d Stop events%s"
+                             % (self.act_start[u][2], self.act_start[u][0], nm(f),
+                                (" (also held by %s)" % ", ".join(nm(g) for g in others)) if others else "", n, mark))
         # -- O3
         for group, acts in self.activations.items():
             live = [a for a in acts if running(a)]
@@ -180,8 +213,8 @@ class _Monitor:
             gname = group[0] + ("(%s)" % ", ".join("%s=%s" % kv for kv in group[1]) if group[1] else "")
             if live and len(mem) != 1:
                 self.bad("O3 an activated flow is (re)started exactly once whenever its instance ends while an activator runs",
-                         "activated flow %s has %d running instances although its activator(s) %s still run"
-                         % (gname, len(mem), ", ".join(sorted({nm(a) for a in live}))))
+                         "activated flow %s has %d running instances (%s) although its activator(s) %s still run"
+                         % (gname, len(mem), ", ".join(nm(m) for m in mem), ", ".join(sorted({nm(a) for a in live}))))
             if not live and mem:
                 self.bad("O3 an activated flow stops when its last activator ends",
                          "activated flow %s still has running instance(s) %s although all its activators ended: %s"
@@ -197,6 +230,7 @@ class _Driver:
         self.mon = None
         self.sm = None
         self.orig = None
+        self.parsed = {}
 
     def __enter__(self):
         import nemoguardrails.colang.v2_x.runtime.statemachine as sm
@@ -219,7 +253,22 @@ class _Driver:
         self.sm._process_internal_events_without_default_matchers = self.orig
         return False
 
-    def run(self, src, history, seed, scoped_pairs=(), limit_s=10):
+    def init_state(self, src):
+        """native.v2.init_state with the (slow) parse cached per program"""
+        import copy
+        from native import v2
+        from nemoguardrails.colang.v2_x.runtime.flows import State
+        from nemoguardrails.colang.v2_x.runtime.runtime import create_flow_configs_from_flow_list
+        from nemoguardrails.colang.v2_x.runtime.statemachine import initialize_state
+        if src not in self.parsed:
+            if len(self.parsed) > 50:
+                self.parsed.clear()
+            self.parsed[src] = v2.parse(src)
+        state = State(flow_states=[], flow_configs=create_flow_configs_from_flow_list(copy.deepcopy(self.parsed[src])))
+        initialize_state(state)
+        return state
+
+    def run(self, src, history, seed, scoped_pairs=(), limit_s=4):
         """history: list of abstract events
              ("u", text)          user utterance finished
              ("fin", i)           Finished for the i-th (mod n) action started so far (may be stopped/finished already: late)
@@ -242,7 +291,7 @@ class _Driver:
         crash = None
         try:
             self.mon = None
-            state = v2.init_state(src)
+            state = self.init_state(src)
             self.mon = mon
             seq = [v2.START_MAIN] + list(history)
             for ev in seq:
@@ -405,6 +454,8 @@ def _random_program(rng, n_flows, max_len):
             elif k == "abort":
                 body.append("abort")
                 break
+        if not body:
+            body.append(_u("e0"))
         flows.append((name, body))
     # main: starts / activates the roots (flows nobody refers to) and a few more, then waits forever
     main = []
@@ -414,8 +465,24 @@ def _random_program(rng, n_flows, max_len):
     if rng.random() < 0.3:
         main.append("activate %s" % rng.choice(names))
     main.append(_u("never"))
-    flows.append(("main", main))
-    return _render(flows), scoped
+    # an activated flow that can complete a whole cycle without an external event restarts forever (documented limitation of the
+    # interpreter, not part of this property): such flows either never wait at all (run once, stay activated) or begin by waiting
+    # for an external event
+    targets = set()
+    for _, body in flows + [("main", main)]:
+        for l in body:
+            if l.startswith("activate "):
+                targets.update(l[len("activate "):].split(" and "))
+    patched = []
+    for name, body in flows:
+        if name in targets:
+            no_wait = all(l.startswith(("start ", "activate ")) for l in body)
+            ext_first = body[0].startswith(("match UtteranceUserAction", "await UtteranceBotAction"))
+            if not no_wait and not ext_first:
+                body = [_u(rng.choice(["e0", "e1", "e2"]))] + body
+        patched.append((name, body))
+    patched.append(("main", main))
+    return _render(patched), scoped
 
 
 def _random_history(rng, length):
@@ -466,8 +533,9 @@ def _activation_templates():
     for bname, (abody, extra) in sorted(_ACTIVATED_BODIES.items()):
         scoped = {("a", "a.s1"), ("a", "a.s2")}
         for ename, ending in sorted(_ENDINGS.items()):
-            for shape in ("once", "twice", "twice-later", "two-parents", "two-parents-twice", "via-child", "via-activated", "and-group"):
-                flows = [("a", abody)] + list(extra)
+            for shape in ("once", "twice", "twice-later", "two-parents", "two-parents-twice", "via-child", "via-activated", "and-group",
+                          "params"):
+                flows = [("a $t" if shape == "params" else "a", abody)] + list(extra)
                 x = ("x", [_u("end"), "abort"])
                 rival = ("rival", [_u("end"), 'start UtteranceBotAction(script="p.win")', _u("never")])
                 helper = []
@@ -476,6 +544,9 @@ def _activation_templates():
                 main = []
                 if shape == "once":
                     p = ["activate a"] + ending
+                elif shape == "params":
+                    # two parameterisations are two activated flows; the first one is activated twice
+                    p = ['activate a "x"', 'activate a "y"', 'activate a "x"'] + ending
                 elif shape == "twice":
                     p = ["activate a", "activate a"] + ending
                 elif shape == "twice-later":
@@ -560,82 +631,80 @@ def _fmt_history(h):
     return "[" + ", ".join(x[1] if x[0] == "u" else (x[0] + (str(x[1]) if len(x) > 1 else "")) for x in h) + "]"
 
 
+def _family(drv, name, cases, bound):
+    """run the cases (label, src, scoped_pairs, history, seed); at most 2 failures are kept per (clause, queued-request?) signature"""
+    failing, sigs, n, seen, crashes = [], {}, 0, set(), []
+    for label, src, scoped, h, seed in cases:
+        viol, crash, steps = drv.run(src, h, seed, scoped)
+        n += steps + 1
+        seen.add((src, _fmt_history(h)))
+        for clause, outcome in viol[:1]:
+            sig = (clause, outcome[outcome.index(" ["):].split(":")[0].strip(" [") if " [" in outcome else "")
+            sigs[sig] = sigs.get(sig, 0) + 1
+            if sigs[sig] <= 2 and len(failing) < 8:
+                failing.append(dict(kind="post", function=name, file=SM, property_id=PROP, clause=clause,
+                                    inputs="%sevents=%s tie-break seed=%d\n%s" % (label + " " if label else "", _fmt_history(h), seed, src),
+                                    outcome=outcome))
+        if crash and len(crashes) < 3:
+            crashes.append("%s %s seed=%d: %s" % (label or src, _fmt_history(h), seed, crash))
+    if crashes:
+        bound += "; interpreter errors / non-termination (not counted as failures): " + " | ".join(crashes)
+    if sigs:
+        bound += "; failing runs by clause: " + "; ".join("%s%s: %d" % (c[:44].strip(), " (%s)" % q if q else "", k) for (c, q), k in sorted(sigs.items()))
+    return dict(function=name, evaluations=n, distinct=len(seen), failures=len(failing), failing=failing, bound=bound)
+
+
 def native_checks(rng, tier):
     thorough = tier == "thorough"
     with _Driver() as drv:
         # ---------------------------------------------------------------- (1) activation templates
-        failing, n, seen, crashes = [], 0, set(), []
         templates = _activation_templates()
-        per = 10 if thorough else 3
-        for label, src, scoped, alphabet in templates:
-            hs = [[("u", "ping"), ("u", "again"), ("u", "ping"), ("u", "end"), ("u", "ping"), ("u", "endq"), ("u", "ping")],
-                  [("u", "ping"), ("finlast",), ("u", "end"), ("fin", 0), ("u", "ping"), ("u", "pong"), ("u", "ping")]]
-            hs += _history_words(rng, alphabet, 7 if thorough else 6, per)
-            for h in hs:
-                seed = rng.randint(0, 10 ** 6)
-                viol, crash, steps = drv.run(src, h, seed, scoped)
-                n += steps + 1
-                seen.add((label, _fmt_history(h)))
-                for clause, outcome in viol[:1]:
-                    if len(failing) < 5:
-                        failing.append(dict(kind="post", function="run_to_completion (activation lifetime)", file=SM, property_id=PROP,
-                                            clause=clause, inputs="%s events=%s tie-break seed=%d\n%s" % (label, _fmt_history(h), seed, src),
-                                            outcome=outcome))
-                if crash and len(crashes) < 3:
-                    crashes.append("%s %s: %s" % (label, _fmt_history(h), crash))
-        yield dict(function="run_to_completion (activation lifetime)", evaluations=n, distinct=len(seen), failures=len(failing), failing=failing,
-                   bound="%d activation hierarchies (9 bodies of the activated flow x 8 activator shapes incl. same flow activating twice, two "
-                         "activators, activator that is a child / itself activated x 6 ways the activator ends: finish, abort, failed await, lost "
-                         "action conflict, never) x (2 fixed + %d random) histories of <= 7 events over {ping,end,again,endq,pong, action "
-                         "Finished early/late, Started}; contract checked after every event%s"
-                         % (len(templates), per, ("; interpreter errors (not counted): " + "; ".join(crashes)) if crashes else ""))
+        per = 12 if thorough else 4
+
+        def cases1():
+            for label, src, scoped, alphabet in templates:
+                hs = [[("u", "ping"), ("u", "again"), ("u", "ping"), ("u", "end"), ("u", "ping"), ("u", "endq"), ("u", "ping")],
+                      [("u", "ping"), ("finlast",), ("u", "end"), ("fin", 0), ("u", "ping"), ("u", "pong"), ("u", "ping")]]
+                hs += _history_words(rng, alphabet, 7, per)
+                for h in hs:
+                    yield label, src, scoped, h, rng.randint(0, 10 ** 6)
+
+        yield _family(drv, "run_to_completion (activation lifetime)", cases1(),
+                      "%d activation hierarchies (9 bodies of the activated flow x 8 activator shapes incl. same flow activating twice, two "
+                      "activators, activator that is a child / itself activated x 6 ways the activator ends: finish, abort, failed await, lost "
+                      "action conflict, never) x (2 fixed + %d random) histories of 7 events over {ping,end,again,endq,pong, action "
+                      "Finished early/late, Started}; contract checked after every event" % (len(templates), per))
 
         # ---------------------------------------------------------------- (2) shared actions / scopes
-        failing, n, seen, crashes = [], 0, set(), []
-        templates = _sharing_templates()
-        per = 30 if thorough else 8
-        for label, src, scoped, alphabet in templates:
-            hs = [[("u", "go"), ("u", "end0"), ("u", "end1"), ("u", "end2")], [("u", "go"), ("u", "zend"), ("u", "end0"), ("u", "end1"), ("u", "end2")],
-                  [("u", "go"), ("u", "end1"), ("finlast",), ("u", "end0"), ("u", "end2")]]
-            hs += _history_words(rng, alphabet, 6, per)
-            for h in hs:
-                seed = rng.randint(0, 10 ** 6)
-                viol, crash, steps = drv.run(src, h, seed, scoped)
-                n += steps + 1
-                seen.add((label, _fmt_history(h)))
-                for clause, outcome in viol[:1]:
-                    if len(failing) < 5:
-                        failing.append(dict(kind="post", function="run_to_completion (shared actions)", file=SM, property_id=PROP,
-                                            clause=clause, inputs="%s events=%s tie-break seed=%d\n%s" % (label, _fmt_history(h), seed, src),
-                                            outcome=outcome))
-                if crash and len(crashes) < 3:
-                    crashes.append("%s %s: %s" % (label, _fmt_history(h), crash))
-        yield dict(function="run_to_completion (shared actions)", evaluations=n, distinct=len(seen), failures=len(failing), failing=failing,
-                   bound="%d hierarchies in which 2-3 sibling flows start the identical action on the same event (one of them optionally inside an "
-                         "or-group scope) and end one after the other (finish / abort) x (3 fixed + %d random) histories of <= 6 events%s"
-                         % (len(templates), per, ("; interpreter errors (not counted): " + "; ".join(crashes)) if crashes else ""))
+        templates2 = _sharing_templates()
+        per2 = 40 if thorough else 12
+
+        def cases2():
+            for label, src, scoped, alphabet in templates2:
+                hs = [[("u", "go"), ("u", "end0"), ("u", "end1"), ("u", "end2")],
+                      [("u", "go"), ("u", "zend"), ("u", "end0"), ("u", "end1"), ("u", "end2")],
+                      [("u", "go"), ("u", "end1"), ("finlast",), ("u", "end0"), ("u", "end2")]]
+                hs += _history_words(rng, alphabet, 6, per2)
+                for h in hs:
+                    yield label, src, scoped, h, rng.randint(0, 10 ** 6)
+
+        yield _family(drv, "run_to_completion (shared actions)", cases2(),
+                      "%d hierarchies in which 2-3 sibling flows start the identical action on the same event (one of them optionally inside an "
+                      "or-group scope) and end one after the other (finish / abort) x (3 fixed + %d random) histories of <= 6 events"
+                      % (len(templates2), per2))
 
         # ---------------------------------------------------------------- (3) random hierarchies
-        failing, n, seen, crashes = [], 0, set(), []
-        n_prog = 1500 if thorough else 260
-        per = 4 if thorough else 3
-        for _ in range(n_prog):
-            src, scoped = _random_program(rng, rng.randint(2, 5), 4)
-            for _ in range(per):
-                h = _random_history(rng, rng.randint(3, 7))
-                seed = rng.randint(0, 10 ** 6)
-                viol, crash, steps = drv.run(src, h, seed, scoped)
-                n += steps + 1
-                seen.add((src, _fmt_history(h)))
-                for clause, outcome in viol[:1]:
-                    if len(failing) < 5:
-                        failing.append(dict(kind="post", function="run_to_completion (random hierarchies)", file=SM, property_id=PROP,
-                                            clause=clause, inputs="events=%s tie-break seed=%d\n%s" % (_fmt_history(h), seed, src),
-                                            outcome=outcome))
-                if crash and len(crashes) < 3:
-                    crashes.append("%s: %s" % (_fmt_history(h), crash))
-        yield dict(function="run_to_completion (random hierarchies)", evaluations=n, distinct=len(seen), failures=len(failing), failing=failing,
-                   bound="%d random hierarchies of 2-5 flows (<= 4 statements each: match / match and-or group / start action / await action / "
-                         "shared action / start, await, activate (once, twice, and-group) a later flow / await or-group / when-or-when / abort) x %d "
-                         "random histories of 3-7 events over {e0,e1,e2, action Finished early/late, Started}, one random tie-break seed each%s"
-                         % (n_prog, per, ("; interpreter errors (not counted): " + "; ".join(crashes)) if crashes else ""))
+        n_prog = 4000 if thorough else 500
+        per3 = 5 if thorough else 4
+
+        def cases3():
+            for _ in range(n_prog):
+                src, scoped = _random_program(rng, rng.randint(2, 5), 4)
+                for _ in range(per3):
+                    yield "", src, scoped, _random_history(rng, rng.randint(3, 7)), rng.randint(0, 10 ** 6)
+
+        yield _family(drv, "run_to_completion (random hierarchies)", cases3(),
+                      "%d random hierarchies of 2-5 flows (<= 4 statements each: match / match and-or group / start action / await action / "
+                      "shared action / start, await, activate (once, twice, and-group) a later flow / await or-group / when-or-when / abort) x %d "
+                      "random histories of 3-7 events over {e0,e1,e2, action Finished early/late, Started}, one random tie-break seed each"
+                      % (n_prog, per3))
